@@ -462,8 +462,18 @@ func runC20(rec *vkit.Recorder, c *c20Case) []vkit.Violation {
 		_ = cm.ReloadFromRaw([]byte(c20Config(cfgJobs())))
 	}
 	// drain: ask for every discovered target until every target that can succeed has, or the grace period ends
-	grace := time.Now().Add(5 * time.Second)
+	// (the grace period starts again with every probe that is made: a target that fails many times takes its time)
+	grace, probesSeen := time.Now().Add(5*time.Second), -1
 	for {
+		fm.mu.Lock()
+		total := 0
+		for _, n := range fm.attempts {
+			total += n
+		}
+		fm.mu.Unlock()
+		if total != probesSeen {
+			grace, probesSeen = time.Now().Add(5*time.Second), total
+		}
 		pending := 0
 		for h := range cur {
 			observe(h)
@@ -597,6 +607,12 @@ func runC20(rec *vkit.Recorder, c *c20Case) []vkit.Violation {
 		cls = append(cls, "job-client-broken-for-a-while")
 	}
 	for i := range c.Targets {
+		if c.Targets[i].FailFirst > 60 {
+			cls = append(cls, "answers-after-more-than-60-failed-probes")
+			break
+		}
+	}
+	for i := range c.Targets {
 		if c.Targets[i].Exemplars > 0 && c.Targets[i].FailFirst >= 0 {
 			cls = append(cls, "openmetrics-answer-with-exemplars")
 			break
@@ -628,6 +644,13 @@ func genC20(t *rapid.T) *c20Case {
 			c.Targets[i].CType = "application/openmetrics-text; version=1.0.0; charset=utf-8"
 			c.Targets[i].Exemplars = rapid.IntRange(1, 4).Draw(t, l+"-exemplars")
 		}
+	}
+	// a target that is down for a long time after its discovery (a crash loop, an exporter rolled out before its
+	// network policy): it is retried until it answers, however many probes failed
+	if rapid.IntRange(0, 11).Draw(t, "longDown") == 0 {
+		i := rapid.IntRange(0, n-1).Draw(t, "longDown-target")
+		c.Targets[i].FailFirst = rapid.SampledFrom([]int{61, 70, 101, 130}).Draw(t, "longDown-fails")
+		c.Targets[i].SlowRetryMs, c.Targets[i].HoldMs = 0, 1
 	}
 	ne := rapid.IntRange(1, 14).Draw(t, "nEvents")
 	for i := 0; i < ne; i++ {
